@@ -313,10 +313,16 @@ TauOf(r, m) ==
 
 ContinuousWithStart(r, m) == LastNNums(r, m) = <<>> \/ LastNNums(r, m)[1] = r.startNum
 
+\* attribute values: "ok" / "bad" by construction of the message, or "world": decided here from
+\* the validity flags of the shown headers (answers derived from a chain of the world)
+Shown(m) == {AncAt(world, m.chain, m.nums[i]) : i \in 1..Len(m.nums)}
+PowOf(m) == IF m.pow = "world" THEN \A b \in Shown(m) : Mined(world, b) ELSE m.pow = "ok"
+RootOf(m) == IF m.root = "world" THEN \A b \in Shown(m) : Rooted(world, b) ELSE m.root = "ok"
+
 Valid(s, m) ==
-    /\ m.match /\ m.root /\ m.pow /\ m.cont /\ m.mmr
+    /\ m.match = "ok" /\ RootOf(m) /\ PowOf(m) /\ m.cont = "ok" /\ m.mmr = "ok"
     \* total difficulty envelope: skipped only when every header from the start block on is shown
-    /\ (m.td \/ (SampleNums(s.req, m) = <<>> /\ ContinuousWithStart(s.req, m)) \/ ~HasProof(s))
+    /\ (m.td = "ok" \/ (SampleNums(s.req, m) = <<>> /\ ContinuousWithStart(s.req, m)) \/ ~HasProof(s))
 
 \* the last-N headers of the new prove state; [ok, v]
 NewLastHeaders(s, m) ==
